@@ -10,11 +10,11 @@
 
    ops (compressed = 0|1, prefix = one byte in hex):
      bsm.sign key compressed msg                  -> compact signature (65 bytes)
-     bsm.sign_k key compressed nonce msg          -> compact signature
+     bsm.sign_k key compressed nonce ncompressed msg prefix -> compact signature; verify against own address
      bsm.compact_verify key compressed msg prefix -> compact; verify; verify after compact round trip;
                                                     plain ECDSA verify_digest(Sha256d) over the independently built preimage
      bsm.verify msg compact prefix hash           -> 1 | ERR
-     bsm.tamper key compressed msg prefix kind i  -> verify after tampering: m = message bit i (or a byte appended),
+     bsm.tamper key compressed msg prefix kind i  -> verify;is_valid_message;is_valid_bitcoin_message after tampering: m = message bit i (or a byte appended),
                                                     s = bit i of the compact signature, h = bit i of the address hash,
                                                     c = address of the other compression form, k = address of key i,
                                                     p = untampered, address re-prefixed with byte i (positive control) *)
@@ -54,13 +54,19 @@ Definition run_sign (kb : bytes) (c : bool) (msg : bytes) : string :=
   | _ => out3 "ERR" "ERR" "-"
   end.
 
-Definition run_sign_k (kb : bytes) (c : bool) (nb msg : bytes) : string :=
-  match key_of kb c, privkey_from_bytes nb with
+Definition is_ok (r : outcome bool) : string := match r with Ok true => "1" | _ => "0" end.
+
+(* the nonce key carries a compression marker of its own (nc); the signature must carry the signer's *)
+Definition run_sign_k (kb : bytes) (c : bool) (nb : bytes) (nc : bool) (msg : bytes) (p : byte) : string :=
+  match key_of kb c, key_of nb nc with
   | Ok sk, Ok ek =>
-      out3 (match sign_with_k_impl fast_prims sk ek msg with
-            | Ok sg => "OK:" +++ hex_of_bytes (to_compact_bytes sg None) | Err => "ERR" | Panic => "PANIC" end)
+      out3 (match sign_with_k_impl fast_prims sk ek msg, own_address fast_prims sk p with
+            | Ok sg, Ok a => "OK:" +++ hex_of_bytes (to_compact_bytes sg None) +++ ";"
+                             +++ show_v (verify_with_digest fast_prims (magic_digest msg) sg a)
+            | Panic, _ => "PANIC" | _, Panic => "PANIC"
+            | _, _ => "ERR" end)
            (match prim_sign_fast (sk_d sk) (sk_d ek) (be_Z (bsm_digest msg) mod secp_n) with
-            | Some (r, s, v) => "OK:" +++ hex_of_bytes (bsm_compact r s v c) | None => "ERR" end) "-"
+            | Some (r, s, v) => "OK:" +++ hex_of_bytes (bsm_compact r s v c) +++ ";1" | None => "ERR" end) "-"
   | _, _ => out3 "ERR" "ERR" "-"
   end.
 
@@ -76,26 +82,29 @@ Definition run_compact_verify (kb : bytes) (c : bool) (msg : bytes) (prefix : by
             let pk := to_public_key fast_prims sk in
             match own_address fast_prims sk prefix with
             | Ok a =>
+                let v1 := verify_with_digest M dg sg a in
                 "OK:" +++ hex_of_bytes cb
-                +++ ";" +++ show_v (verify_with_digest M dg sg a)
+                +++ ";" +++ show_v v1
                 +++ ";" +++ show_v (do sg' <- from_compact_impl cb; verify_with_digest M dg sg' a)
                 (* ECDSA::verify_digest(preimage built by the driver itself, pubkey, sig, Sha256d) *)
                 +++ ";" +++ show_v (match p_decode M (pk_point pk) with
                                     | None => Err
                                     | Some Q => if p_verify M Q (scalar_be (bsm_digest msg)) (sig_r sg, sig_s sg) then Ok true else Err
                                     end)
+                (* BSM::is_valid_message, P2PKHAddress::is_valid_bitcoin_message = verify_message_impl(..).is_ok() *)
+                +++ ";" +++ is_ok v1 +++ ";" +++ is_ok v1
             | Err => "ERR" | Panic => "PANIC"
             end
         | Err => "ERR" | Panic => "PANIC"
         end in
       out3 impl (match bsm_sign_spec (sk_d sk) c msg with
-                 | Some b => "OK:" +++ hex_of_bytes b +++ ";1;1;1" | None => "-" end) "-"
+                 | Some b => "OK:" +++ hex_of_bytes b +++ ";1;1;1;1;1" | None => "-" end) "-"
   | _ => out3 "ERR" "ERR" "-"
   end.
 
 Definition run_verify (msg cb : bytes) (p : byte) (h : bytes) : string :=
   out3 (show_verify (do sg <- from_compact_impl cb; do a <- make_addr p h;
-                     verify_with_digest fast_prims (magic_digest msg) sg a)) "-" "-".
+                     verify_with_digest fast_prims (magic_digest msg) sg a)) "ERR~OK:1" "-".
 
 Definition flip_bit (bs : bytes) (i : nat) : bytes :=
   let k := Nat.div i 8 in
@@ -103,6 +112,9 @@ Definition flip_bit (bs : bytes) (i : nat) : bytes :=
   | Some b => firstn k bs ++ n2b (N.lxor (b2n b) (2 ^ N.of_nat (Nat.modulo i 8))) :: skipn (S k) bs
   | None => bs ++ [x00]
   end.
+
+Definition show_t (r : outcome bool) : string :=
+  match r with Panic => "PANIC" | _ => "OK:" +++ show_v r +++ ";" +++ is_ok r +++ ";" +++ is_ok r end.
 
 Definition run_tamper (kb : bytes) (c : bool) (msg : bytes) (p : byte) (kind : string) (i : N) : string :=
   match key_of kb c with
@@ -113,22 +125,22 @@ Definition run_tamper (kb : bytes) (c : bool) (msg : bytes) (p : byte) (kind : s
         match sign_with_digest fast_prims sk dg, own_address fast_prims sk p with
         | Ok sg, Ok a =>
             match kind with
-            | "m" => show_verify (verify_with_digest fast_prims (magic_digest (flip_bit msg idx)) sg a)
-            | "s" => show_verify (do sg' <- from_compact_impl (flip_bit (to_compact_bytes sg None) (Nat.modulo idx 520));
+            | "m" => show_t (verify_with_digest fast_prims (magic_digest (flip_bit msg idx)) sg a)
+            | "s" => show_t (do sg' <- from_compact_impl (flip_bit (to_compact_bytes sg None) (Nat.modulo idx 520));
                                   verify_with_digest fast_prims dg sg' a)
-            | "h" => show_verify (do a' <- make_addr p (flip_bit (Keys.a_hash a) (Nat.modulo idx 160));
+            | "h" => show_t (do a' <- make_addr p (flip_bit (Keys.a_hash a) (Nat.modulo idx 160));
                                   verify_with_digest fast_prims dg sg a')
-            | "c" => show_verify (do a' <- own_address fast_prims (compress_public_key sk (negb c)) p;
+            | "c" => show_t (do a' <- own_address fast_prims (compress_public_key sk (negb c)) p;
                                   verify_with_digest fast_prims dg sg a')
-            | "k" => show_verify (do a' <- own_address fast_prims {| sk_d := Z.of_N i; sk_compressed := c |} p;
+            | "k" => show_t (do a' <- own_address fast_prims {| sk_d := Z.of_N i; sk_compressed := c |} p;
                                   verify_with_digest fast_prims dg sg a')
-            | "p" => show_verify (do a' <- Keys.addr_set_chain a (n2b i); verify_with_digest fast_prims dg sg a')
+            | "p" => show_t (do a' <- Keys.addr_set_chain a (n2b i); verify_with_digest fast_prims dg sg a')
             | _ => "BADARG"
             end
         | Panic, _ => "PANIC" | _, Panic => "PANIC"
         | _, _ => "ERR"
         end in
-      out3 impl (match kind with "p" => "OK:1" | _ => "ERR" end) "-"
+      out3 impl (match kind with "p" => "OK:1;1;1" | _ => "OK:E;0;0" end) "-"
   | _ => out3 "ERR" "ERR" "-"
   end.
 
@@ -143,9 +155,10 @@ Definition run (op : string) (args : list string) : string :=
   | "bsm.sign", [k; c; m] =>
       match expand k, arg_flag c, expand m with
       | Some kb, Some cb, Some mb => run_sign kb cb mb | _, _, _ => "BADARG" end
-  | "bsm.sign_k", [k; c; n; m] =>
-      match expand k, arg_flag c, expand n, expand m with
-      | Some kb, Some cb, Some nb, Some mb => run_sign_k kb cb nb mb | _, _, _, _ => "BADARG" end
+  | "bsm.sign_k", [k; c; n; nc; m; p] =>
+      match expand k, arg_flag c, expand n, arg_flag nc, expand m, arg_byte p with
+      | Some kb, Some cb, Some nb, Some ncb, Some mb, Some pb => run_sign_k kb cb nb ncb mb pb
+      | _, _, _, _, _, _ => "BADARG" end
   | "bsm.compact_verify", [k; c; m; p] =>
       match expand k, arg_flag c, expand m, arg_byte p with
       | Some kb, Some cb, Some mb, Some pb => run_compact_verify kb cb mb pb | _, _, _, _ => "BADARG" end
